@@ -591,6 +591,16 @@ func (vc *FuncVC) resolveHeap(short string, pkg *types.Package) (string, Sort) {
 	}
 	if strings.HasPrefix(short, "global.") {
 		name := short[len("global."):]
+		if k := strings.LastIndex(name, "."); k >= 0 {
+			// global of another package: pkgname.Var
+			for path, p := range vc.w.typPkgs {
+				if p.Name() == name[:k] || path == name[:k] {
+					if o := p.Scope().Lookup(name[k+1:]); o != nil {
+						return "global." + p.Path() + "." + name[k+1:], vc.sortOf(o.Type())
+					}
+				}
+			}
+		}
 		if pkg != nil {
 			if o := pkg.Scope().Lookup(name); o != nil {
 				return "global." + pkg.Path() + "." + name, vc.sortOf(o.Type())
